@@ -115,17 +115,37 @@ def gen_op(rng, repo, explicit, pfault=0.25):
     return "C"
 
 
-def gen_script(rng, comp="ctxs", explicit=None, nops=None):
+# option arguments of the O / U operations in the scripts the model also runs: sums of 1 LY_CTX_EXPLICIT_COMPILE,
+# 2 ENABLE_IMP_FEATURES, 4 REF_IMPLEMENTED, 16 SET_PRIV_PARSED (8 ALL_IMPLEMENTED is not modelled, see ctx-rich)
+OPT_FLAGS = [1, 2, 4, 16, 17, 18, 20, 22, 6, 3, 5, 23]
+
+
+def gen_script(rng, comp="ctxs", explicit=None, nops=None, opts=False):
+    """opts: ly_ctx_set_options / ly_ctx_unset_options calls (O <flags> / U <flags>) between the operations, and
+    ly_ctx_compile calls whatever the initial mode is (LY_CTX_EXPLICIT_COMPILE comes and goes)"""
     if explicit is None:
         explicit = rng.random() < 0.35
     repo = Repo(rng)
     n = nops or rng.randrange(3, 11)
     ops = []
     for _ in range(n):
-        ops.append(gen_op(rng, repo, explicit))
-        if explicit and rng.random() < 0.3:
+        ops.append(gen_op(rng, repo, explicit or opts))
+        if (explicit or opts) and rng.random() < 0.3:
             ops.append("C")
+        if opts and rng.random() < 0.3:
+            ops.append("%s %d" % (rng.choice("OOU"), rng.choice(OPT_FLAGS)))
     return "\t".join([comp, "1" if explicit else "0", str(repo)] + ops)
+
+
+def gen_option_scripts(rng, comp, n):
+    """scripts with option calls; the state of the shared generator is put back afterwards, so that the inputs of the
+    components and oracles that existed before these scripts stay what they were"""
+    st = rng.getstate()
+    L = [w.replace("ctxs\t", comp + "\t", 1) for w in OPT_WITNESS.values()]
+    for _ in range(n):
+        L.append(gen_script(rng, comp, opts=True))
+    rng.setstate(st)
+    return L
 
 
 def gen_systematic(rng, comp="ctxs"):
@@ -188,10 +208,22 @@ WITNESS = {
 }
 
 
+# option calls (the model has them since round 5)
+OPT_WITNESS = {
+    # regression of the seeded change C09-7: explicit compilation, b (leafref without target) pending; the recompilation of
+    # ly_ctx_set_options(ENABLE_IMP_FEATURES | SET_PRIV_PARSED) fails and the options must be what they were
+    "set-options-fail": "ctxs\t1\tb1:-:-:4\tP 0 - ~\tO 18\tU 1\tO 18",
+    # nothing pending: the same call succeeds and sets both
+    "set-options-ok": "ctxs\t0\ta1:-:f1:0;b1:a1:-:0\tP 1 - ~\tO 18\tU 16\tO 17\tP 0 - f1\tC",
+    # explicit compilation switched on and off by the option calls
+    "set-explicit": "ctxs\t0\ta1:-:-:0;b1:-:-:3\tO 1\tP 0 - ~\tP 1 - ~\tU 1\tC\tO 16",
+}
+
+
 # ------------------------------------------------------------------------------------------------
 # the property on one output line of the driver
 # ------------------------------------------------------------------------------------------------
-_MOD = re.compile(r"^([a-h])(\d)([Ii])([0-9a-f])([Tt])\{([^}]*)\}c=(-|\[[^\]]*\])r([=+0])$")
+_MOD = re.compile(r"^([a-h])(\d)([Ii])([0-9a-f])([Tt])\{([^}]*)\}c=(-|\[[^\]]*\])r([=+0.])$")
 ASSERT_LATEST = "mod_latest->latest_revision & LYS_MOD_LATEST_REV"
 
 
@@ -207,7 +239,8 @@ def parse_segment(seg):
     elif seg.endswith(" #"):
         seg, extra = seg[:-2], ""
     f = seg.split(";")
-    if len(f) != 6 or not f[3].startswith("L:") or not f[4].startswith("M:"):
+    if len(f) not in (6, 7) or not f[3].startswith("L:") or not f[4].startswith("M:") or \
+            (len(f) == 7 and not re.match(r"^O:\d+$", f[6])):
         raise ValueError("segment %r" % seg)
     mods = []
     for w in f[2].split(" "):
@@ -217,7 +250,8 @@ def parse_segment(seg):
         if not m:
             raise ValueError("module %r" % w)
         mods.append(m.groups())
-    return dict(res=f[0], cc=f[1], mods=mods, latest=f[3][2:], impl=f[4][2:], hash=f[5], extra=extra)
+    return dict(res=f[0], cc=f[1], mods=mods, latest=f[3][2:], impl=f[4][2:], hash=f[5], extra=extra,
+                opts=int(f[6][2:]) if len(f) == 7 else None)
 
 
 def public(seg):
@@ -228,7 +262,7 @@ def public(seg):
     ex = ()
     if seg["extra"] is not None:
         ex = tuple(w for w in seg["extra"].split(" ") if ":" in w)
-    return (mods, seg["latest"], seg["impl"], seg["hash"], ex)
+    return (mods, seg["latest"], seg["impl"], seg["hash"], ex, seg["opts"])
 
 
 def pending(seg):
@@ -284,7 +318,13 @@ def analyse(line, out, stderr=""):
             tr = w[0] if w and ":" not in w[0] and not w[0].startswith("S") else ""
             shadow = next((x[1] for x in w if x.startswith("S") and len(x) == 2), ".")
         if seg["res"] == "E":
+            if prev_seg is not None and prev_seg["opts"] is not None:
+                explicit = bool(prev_seg["opts"] & 1)
             if prev is not None and pub != prev:
+                if pub[5] != prev[5]:
+                    # no known finding changes ly_ctx_get_options in a failing call
+                    return (None, "op %d (%s) failed and the context options are not what they were: before %r after %r" %
+                            (i, op, prev[5], pub[5]))
                 return (classify(prev, pub, explicit, pending(prev_seg)),
                         "op %d (%s) failed and the context is not what it was: before %r after %r" % (i, op, prev, pub))
             if prev is None and (pub[0] or pub[1].strip("-") or pub[2].strip("-")):
@@ -327,7 +367,7 @@ class CtxScript(Comp):
             L += gen_systematic(rng)
         for _ in range(self.n(tier, 1500, 60000, scale)):
             L.append(gen_script(rng))
-        return L
+        return L + gen_option_scripts(rng, "ctxs", self.n(tier, 800, 30000, scale))
 
 
 class CtxInternals(Comp):
@@ -398,7 +438,7 @@ class CtxModelInv:
             L += gen_systematic(rng, "ctxq")
         for _ in range(int((30000 if tier == "thorough" else 1500) * scale)):
             L.append(gen_script(rng, "ctxq"))
-        return L
+        return L + gen_option_scripts(rng, "ctxq", int((15000 if tier == "thorough" else 800) * scale))
 
     def run(self, lines):
         import vlib
@@ -589,7 +629,6 @@ class CtxRich:
         empty = ";L:--------;M:--------;O:%d" % flags
         last_compiled = empty            # explicit compilation: the observable after the last successful ly_ctx_compile()
         diverged = False                 # explicit compilation: a failed call threw pending calls away, the shadow context kept them
-        ref_late = False                 # LY_CTX_REF_IMPLEMENTED was set by ly_ctx_set_options() when modules were already compiled
         for i, (op, sg) in enumerate(zip(ops, segs)):
             if sg.startswith("?"):
                 return (None, "driver protocol: %s" % sg)
@@ -603,12 +642,10 @@ class CtxRich:
             if res == "E" and op[0] in "OU" and opt_of(obs) != opt_of(before):
                 return (None, "op %d (%s) failed and ly_ctx_get_options() changed: %s -> %s" % (i, op, opt_of(before), opt_of(obs)))
             # Retired tags (a recurrence is a plain violation): ctx-target-not-compiled (fixed by /repo d873110),
-            # ctx-explicit-compile-partial (c018937), ctx-imp-features-kept (d89c6b6)
-            if res == "E" and ref_late and obs != before and op != "C" and op[0] not in "OU" and \
-                    not (bool(int(opt_of(before) or 0) & 1) and "*{" in before):
-                return ("ctx-ref-implemented-set-late", "op %d (%s) failed and the recompilation of the revert ran with options set after the last compilation: %s" % (i, op, obs))
+            # ctx-explicit-compile-partial (c018937), ctx-imp-features-kept (d89c6b6), ctx-ref-implemented-set-late (1c17162:
+            # LY_CTX_REF_IMPLEMENTED set after modules were compiled, the recompilation of the revert implemented more modules)
             if res == "E" and "c=!" in obs and "c=!" not in before:
-                return ("ctx-ref-implemented-set-late" if ref_late else None, "op %d (%s) failed and left a compiled module with an unresolved leafref: %s" % (i, op, obs))
+                return (None, "op %d (%s) failed and left a compiled module with an unresolved leafref: %s" % (i, op, obs))
             if res == "E":
                 was_pending = explicit and "*{" in before
                 if was_pending and op == "C":
@@ -616,19 +653,13 @@ class CtxRich:
                     # mode); what was compiled before must be what it was
                     diverged = True
                     if obs.rsplit(";O:", 1)[0] != last_compiled.rsplit(";O:", 1)[0] or opt_of(obs) != opt_of(before):
-                        return ("ctx-ref-implemented-set-late" if ref_late else None,
+                        return (None,
                                 "op %d (C) failed and the context is not what the last compilation left: then %s now %s" % (i, last_compiled, obs))
                 elif obs != before:
-                    if ref_late and "*{" in obs and not was_pending:
-                        # the recompilation of the revert runs with the options of now: it implements the modules that when/must
-                        # of the old modules refer to, and fails with them
-                        return ("ctx-ref-implemented-set-late", "op %d (%s) failed and the recompilation of the revert implemented more modules: %s" % (i, op, obs))
                     if was_pending:
                         return ("ctx-explicit-revert-pending", "op %d (%s) failed and undid pending calls: before %s after %s" % (i, op, before, obs))
                     return (None, "op %d (%s) failed and the context is not what it was: before %s after %s" % (i, op, before, obs))
             elif res == "ok":
-                if op[0] == "O" and (int(op.split(" ")[1]) & 4) and not (int(opt_of(before) or 0) & 4) and before.split(";")[0]:
-                    ref_late = True
                 if (not explicit and "*{" in obs) or "c=!" in obs:
                     # a successful call left an implemented module that is not compiled: the target of an augment / deviation
                     # of a module that was implemented on the spot because of a leafref, when or must (lys_compile_expr_implement)
